@@ -201,6 +201,10 @@ Scenario generate(const std::string& prop, uint64_t seed, const std::string& tie
         && (sc.executor == "seq" || sc.executor == "omp" || sc.executor == "seqtsm" || sc.executor == "omptsm")) {
         sc.kernel = r.chance(0.5) ? "weight_s35" : "weight_s62";   // other container shapes: 3 data / 5 result values, 6 data / 2 result values
     }
+    if (!numeric && sc.kernel == "weight" && (prop == "C02" || prop == "C03" || prop == "C15") && r.chance(0.06)
+        && (sc.executor == "seq" || sc.executor == "omp" || sc.executor == "seqtsm" || sc.executor == "omptsm")) {
+        sc.kernel = "test";   // the library's own TbfTestKernel (level- and position-blind, integer)
+    }
     if (const char* f = getenv("TBFSIM_FORCE_KERNEL")) { sc.kernel = f; numeric = (sc.kernel == "rot" || sc.kernel == "unif"); if (sc.kernel == "unif" && sc.isTsm()) sc.executor = "omp"; }
     // ordering
     {
@@ -214,7 +218,7 @@ Scenario generate(const std::string& prop, uint64_t seed, const std::string& tie
         sc.ordering = x < pm ? "morton" : (x < pm + pp ? "periodic" : "hilbert");
         (void)ph;
         if (const char* f = getenv("TBFSIM_FORCE_ORDERING")) sc.ordering = f;
-        if (sc.executor.rfind("specx", 0) == 0 || sc.executor.rfind("starpu", 0) == 0 || numeric || sc.isFloat() || sc.kernel.rfind("weight_s", 0) == 0) sc.ordering = "morton";
+        if (sc.executor.rfind("specx", 0) == 0 || sc.executor.rfind("starpu", 0) == 0 || numeric || sc.isFloat() || sc.kernel.rfind("weight_s", 0) == 0 || sc.kernel == "test") sc.ordering = "morton";
         if (sc.kernel == "rot" && r.chance(0.35)) sc.ordering = "periodic";   // the rotation kernel also ships a periodic near field
     }
 
